@@ -445,6 +445,8 @@ def main_c12(run):
         run.cov["traces_validated_against_impl"] += len(acc & set(range(1, n + 1)))
         run.sample({"issued": max(issued_streams, key=lambda s: len(s["names"]))["names"][:12]})
         # dynamic: user variables keep their values across compiled constructs (HyCore)
+        # constructs with temporaries side by side under constructs with temporaries (C.temporaries_family)
+        cases += C.build_cases(run, C.temporaries_family(), rng, nv, fault_limit=0, scripts=2 if run.quick else 5)
         us = C.decide(run, cases, nv, "c12")
         for c in us[-2:]:
             run.sample(C.sample_of(c))
@@ -516,8 +518,18 @@ def many_name_programs(rng, n):
     for _ in range(n):
         k = rng.randint(2, 6)
         ns = rng.sample(names, k)
-        kind = rng.randrange(9)
+        kind = rng.randrange(11)
         sp = " ".join(ns)
+        if kind >= 9:      # the same names again with some of them repeated (also under another spelling)
+            dup = ns + [rng.choice(ns) for _ in range(rng.randint(1, 3))] + [ns[0].replace("1", "1") + "", ns[-1]]
+            rng.shuffle(dup)
+            hy_names = [x + "-z" for x in dup] if kind == 10 else dup
+            alt = [x.replace("-", "_") if i % 2 else x for i, x in enumerate(hy_names)]
+            out.append(f"(defn f [] (global {' '.join(alt)}) " + " ".join(f"(setv {x} 1)" for x in set(hy_names)) + ")")
+            out.append("(defn o [] " + " ".join(f"(setv {x} 0)" for x in set(hy_names)) +
+                       f" (defn i [] (nonlocal {' '.join(alt)}) " + " ".join(f"(setv {x} 1)" for x in set(hy_names)) + ") (i))")
+            out.append(f"(import os [{' '.join('path :as ' + x for x in alt)}])")
+            continue
         if kind == 0:      # sequence pattern, guard that needs statements
             out.append(f"(match v [{sp}] :if (do (setv q 1) (> {ns[0]} q)) [{sp}])")
         elif kind == 1:    # mapping / class patterns, guard with try
